@@ -10,6 +10,7 @@ C14.A4 a register is not used (handed to an emitter) after it was released
 from __future__ import annotations
 
 import ast
+import os
 from typing import Dict, List, Optional, Set, Tuple
 
 from .. import astutil as A
@@ -243,8 +244,38 @@ def check_pools_reset(ctx):
     ctx.anchor("C14.P", "pool fields restored by the reset_* methods of the memory manager", n, 3)
 
 
+# Units whose temporaries C14.X decides by running the operation more often than there are registers (conditions in every form,
+# loop_until's exit test, add on both kinds of future).  The ownership analysis C14.A1 follows a register only through locals, fields
+# and the lists it knows; a refactoring that keeps the temporaries in a record of its own and releases them in a method of that record
+# is right and unreadable to it.  For these units the executed rule is the judge; the analysis keeps every other unit (the EPR paths
+# above all, which the long runs do not all reach).
+DECIDED_BY_RUNS = {"Builder._get_branch_commands_single_operand", "Builder._get_branch_commands", "Builder._loop_until_get_break_commands",
+                   "Builder._get_condition_operand", "Future.add", "RegFuture.add"}
+
+
+def check_long_runs(ctx, rule="C14.X", rounds=40):
+    """C14 as stated, on bounded histories (nqsa/sdkprog.py): each operation kind - unary and binary conditions in both forms, counted
+    loops, loop_until, foreach, enumerate, add with and without modulus, measurement, and the nested combinations - is completed
+    `rounds` times (more than twice the register file) on one connection, flushed after every seventh; the repository's builder must
+    keep compiling, the repository's controller must execute every subroutine, and the final arrays must be those of executing the
+    operations directly (a temporary that overwrote a live register of an enclosing operation shows there)."""
+    from .. import sdkprog as P, session as S
+    jobs = [(p, P.long_run_flushes(p), ("generic", 3)) for p in P.long_runs(rounds)]
+    try:
+        bad, _n = P.run_all(ctx, jobs, chunk=len(jobs))
+    except AnalysisError as ex_:
+        ctx.error(rule, f"the host programs cannot be executed: {ex_}")
+        return
+    ctx.anchor(rule, "operation kinds repeated on one connection", len(jobs), 12)
+    b = ctx.repo.get_class("netqasm.sdk.builder", "Builder")
+    ctx.check(rule, "the-nth-operation-still-compiles", "the-host-program-is-accepted" not in bad, bad.get("the-host-program-is-accepted", ""), b.loc(b.node), sample={"rounds": rounds, "kinds": len(jobs)})
+    rest = [v for k, v in bad.items() if k != "the-host-program-is-accepted"]
+    ctx.check(rule, "results-as-direct-execution", not rest, rest[0] if rest else "", b.loc(b.node), sample={"rounds": rounds, "kinds": len(jobs)})
+
+
 def run(ctx):
     repo, ev = ctx.repo, ctx.ev
+    check_long_runs(ctx, rounds=18 if os.environ.get("NQSA_SELFTEST") else 40 if ctx.tier != "thorough" else 120)
     check_pools_reset(ctx)
     units, by_name = collect_units(repo)
     an = O.Analyzer(units, by_name)
@@ -259,6 +290,8 @@ def run(ctx):
     n_sites = 0
     for (q, site), node in sorted(an.acquire_sites.items(), key=lambda kv: (kv[0][0], kv[0][1])):
         n_sites += 1
+        if q in DECIDED_BY_RUNS:
+            continue
         m = units[q][1]
         l = leaks.get((q, site))
         ctx.check("C14.A1", f"{q}:{site}", l is None,
@@ -266,7 +299,7 @@ def run(ctx):
                    f"every completed operation of this kind permanently consumes one of the 16 registers") if l else "",
                   repo.loc(m, node), facts={"path": dict(l.facts)} if l else None,
                   sample={"unit": q, "acquire": site, "released_or_transferred_on_all_paths": l is None})
-    ctx.anchor("C14.A1", "register acquire sites", n_sites, 26)
+    ctx.anchor("C14.A1", "register acquire sites", n_sites, 20)
     # table transfers: the paired exit function must pop the table and release what it popped
     pairs = context_pairs(repo)
     summ = {q.split(".")[-1]: s for q, s in an.summaries.items() if "." in q}
@@ -426,9 +459,9 @@ SEEDS = [
          new="        self._used_meas_registers = {\n            operand.Register(RegisterName.M, i): False for i in range(8)\n        }\n\n    def add_register_to_return"),
     dict(id="c14-drop-release-wait", file=B, expect="C14.A1", construct="_add_wait_for_ent_info_cmd", old="        for reg in created_regs:\n            self._mem_mgr.remove_active_register(reg)\n", new=""),
     dict(id="c14-drop-release-bell", file=B, expect="C14.A1", construct="_get_raw_bell_state", old="        self._mem_mgr.remove_active_register(index_reg)\n        return RegFuture(self._connection, target_reg)", new="        return RegFuture(self._connection, target_reg)"),
-    dict(id="c14-drop-release-binary-cond", file=B, expect="C14.A1", construct="_get_branch_commands:", old="        for reg in temp_regs_to_remove:\n            self._mem_mgr.remove_active_register(reg)\n\n        exit = BranchLabel(exit_label)\n        if_end = [exit]\n\n        return if_start, if_end\n\n    @contextmanager", new="        exit = BranchLabel(exit_label)\n        if_end = [exit]\n\n        return if_start, if_end\n\n    @contextmanager"),
-    dict(id="c14-future-add-other", file=FU, expect="C14.A1", construct="Future.add", old="        self.builder._mem_mgr.remove_active_register(tmp_register)\n        if other_tmp_register is not None:\n            self.builder._mem_mgr.remove_active_register(other_tmp_register)", new="        self.builder._mem_mgr.remove_active_register(tmp_register)"),
-    dict(id="c14-regfuture-add", file=FU, expect="C14.A1", construct="RegFuture.add", old="        if other_tmp_register is not None:\n            self.builder._mem_mgr.remove_active_register(other_tmp_register)\n\n        self.builder.subrt_add_pending_commands(commands)\n\n\nclass Array", new="        self.builder.subrt_add_pending_commands(commands)\n\n\nclass Array"),
+    dict(id="c14-drop-release-binary-cond", file=B, expect="C14.X", construct="", old="        for reg in temp_regs_to_remove:\n            self._mem_mgr.remove_active_register(reg)\n\n        exit = BranchLabel(exit_label)\n        if_end = [exit]\n\n        return if_start, if_end\n\n    @contextmanager", new="        exit = BranchLabel(exit_label)\n        if_end = [exit]\n\n        return if_start, if_end\n\n    @contextmanager"),
+    dict(id="c14-future-add-other", file=FU, expect="C14.X", construct="", old="        self.builder._mem_mgr.remove_active_register(tmp_register)\n        if other_tmp_register is not None:\n            self.builder._mem_mgr.remove_active_register(other_tmp_register)", new="        self.builder._mem_mgr.remove_active_register(tmp_register)"),
+    dict(id="c14-regfuture-add", file=FU, expect="C14.X", construct="", old="        if other_tmp_register is not None:\n            self.builder._mem_mgr.remove_active_register(other_tmp_register)\n\n        self.builder.subrt_add_pending_commands(commands)\n\n\nclass Array", new="        self.builder.subrt_add_pending_commands(commands)\n\n\nclass Array"),
     dict(id="c14-foreach-exit", file=B, expect="C14.A1", construct="_foreach_context_enter", old="            loop_register=loop_register,\n        )\n        self._mem_mgr.remove_active_register(loop_register)\n\n    def _loop_until_context_enter", new="            loop_register=loop_register,\n        )\n\n    def _loop_until_context_enter"),
     dict(id="c14-loop-body-flag", file=B, expect="C14.A1", construct="_build_cmds_loop_body", old="        if not loop_register_already_activated:\n            self._mem_mgr.remove_active_register(loop_register)\n\n    def _build_cmds_loop(", new="        if loop_register_already_activated:\n            self._mem_mgr.remove_active_register(loop_register)\n\n    def _build_cmds_loop("),
     dict(id="c14-closure-leak", file=B, expect="C14.A1", construct="post_loop", old="                self._mem_mgr.remove_active_register(reg0)\n                self._mem_mgr.remove_active_register(reg1)\n", new="                self._mem_mgr.remove_active_register(reg0)\n"),
@@ -438,8 +471,8 @@ SEEDS = [
     dict(id="c14-pool", file="netqasm/sdk/memmgr.py", expect="C14.A3", construct="pool", old="        for i in range(2**REG_INDEX_BITS):\n            register = parse_register(f\"R{i}\")", new="        for i in range(1, 2**REG_INDEX_BITS):\n            register = parse_register(f\"R{i}\")"),
     dict(id="c14-release-before-build", file=B, expect="C14.A4", construct="_loop_until_context_exit", old="        self._build_cmds_loop_until(\n            pre_commands=pre_commands,\n            body_commands=body_commands,\n            context=context,\n            loop_register=loop_register,\n        )\n        self._mem_mgr.remove_active_register(loop_register)\n",
          new="        self._mem_mgr.remove_active_register(loop_register)\n        self._build_cmds_loop_until(\n            pre_commands=pre_commands,\n            body_commands=body_commands,\n            context=context,\n            loop_register=loop_register,\n        )\n"),
-    dict(id="c14-orig-unary-flag", file=B, expect="C14.A1", construct="_get_branch_commands_single_operand", old="        if isinstance(op, Future):\n            assert isinstance(cond_operand, operand.Register)\n            self._mem_mgr.remove_active_register(cond_operand)\n", new="        using_new_temp_reg = False\n        if using_new_temp_reg:\n            assert isinstance(cond_operand, operand.Register)\n            self._mem_mgr.remove_active_register(cond_operand)\n"),
-    dict(id="c14-orig-break-list", file=B, expect="C14.A1", construct="_loop_until_get_break_commands", old="            for reg in temp_regs_to_remove:\n                self._mem_mgr.remove_active_register(reg)\n        else:\n            assert False", new="        else:\n            assert False"),
+    dict(id="c14-orig-unary-flag", file=B, expect="C14.X", construct="", old="        if isinstance(op, Future):\n            assert isinstance(cond_operand, operand.Register)\n            self._mem_mgr.remove_active_register(cond_operand)\n", new="        using_new_temp_reg = False\n        if using_new_temp_reg:\n            assert isinstance(cond_operand, operand.Register)\n            self._mem_mgr.remove_active_register(cond_operand)\n"),
+    dict(id="c14-orig-break-list", file=B, expect="C14.X", construct="", old="            for reg in temp_regs_to_remove:\n                self._mem_mgr.remove_active_register(reg)\n        else:\n            assert False", new="        else:\n            assert False"),
     dict(id="c14-orig-loop-until-register", file=B, expect="C14.A1", construct="_loop_until_context_enter", old="            loop_register=loop_register,\n        )\n        self._mem_mgr.remove_active_register(loop_register)\n\n    def _build_cmds_breakpoint(", new="            loop_register=loop_register,\n        )\n\n    def _build_cmds_breakpoint("),
 ]
 BENIGN = [
